@@ -258,6 +258,69 @@ pub fn run(args: &Args) -> i32 {
         check_pattern(&sig, &few_rot, true, json!({"family": "pad-plateaus", "column": col, "first_row": r0, "pad_amplitudes": amps}), loc);
     });
 
+    // F8: hook-free variant: the same relation through spec-conformant banks and the public API only
+    rep.run("through-banks", if thorough { 12 } else { 4 }, 600, true, "lattice events and a seam-straddling block digitised and packed into banks (simulation run: uniform calibration), rotated / mirrored by re-encoding through the inverse channel maps: MainEvent::try_from_banks + avalanches() only", |idx, loc| {
+        let m = maps();
+        let sig = if idx % 4 == 3 {
+            let hits: Vec<Hit> = (0..9).map(|j| Hit { wire: (251 + j) % 256, bin: 15 + 4 * j, z: 0.2 + 0.0093 * j as f64, amp: 80.0 + 11.0 * j as f64 }).collect();
+            hits_signals(&hits, 0.0045)
+        } else {
+            let spec = lattice_event((idx * 211 + 5) % 4320, 0);
+            signals(m, spec.sigma_z, &ionisation(m, &spec))
+        };
+        // digitise once, then move the digitised (calibrated) signals around
+        let digit = |s: &Signals| -> Signals {
+            Signals { wires: s.wires.iter().map(|(w, v)| (*w, digitise_wire(v)[DELAY..].iter().map(|&x| (x as i32 - WIRE_BASELINE as i32) as f64).collect())).collect(), pads: s.pads.iter().map(|(p, v)| (*p, digitise_pad(v)[DELAY..].iter().map(|&x| (x as i32 - PAD_BASELINE as i32) as f64).collect())).collect() }
+        };
+        let dsig = digit(&sig);
+        let via_banks = |s: &Signals| -> Result<Vec<Key>, String> {
+            let b = banks(m, s, 1);
+            guard(|| {
+                let ev = MainEvent::try_from_banks(SIM_RUN, b.iter().map(|(n, d)| (n.as_str(), &d[..]))).expect("well-formed event");
+                ev.avalanches().iter().map(|a| (a.t.get::<second>().to_bits(), wire_of(a), a.z.get::<meter>(), a.wire_amplitude.to_bits(), a.pad_amplitude.to_bits())).collect()
+            })
+        };
+        let what = json!({"family": "through-banks", "index": idx});
+        let base = match via_banks(&dsig) {
+            Ok(b) => b,
+            Err(p) => {
+                loc.violation(format!("panic:event:{}", panic_site(&p)), json!({"case": what, "panic": p}));
+                return;
+            }
+        };
+        loc.note(hash64(&(idx, 8u8)), !base.is_empty(), "avalanches");
+        for k in [1usize, 7, 16, 31] {
+            let mut want: Vec<Key> = base.iter().map(|a| (a.0, (a.1 + 8 * k) % 256, a.2, a.3, a.4)).collect();
+            let mut got = match via_banks(&rotate(&dsig, k)) {
+                Ok(g) => g,
+                Err(p) => {
+                    loc.violation(format!("panic:event:{}", panic_site(&p)), json!({"case": what, "rotation": k, "panic": p}));
+                    return;
+                }
+            };
+            sort_keys(&mut want);
+            sort_keys(&mut got);
+            if want.len() != got.len() || want.iter().zip(&got).any(|(a, b)| !(a.0 == b.0 && a.1 == b.1 && a.2.to_bits() == b.2.to_bits() && a.3 == b.3 && a.4 == b.4)) {
+                loc.violation("c13:rotation-not-invariant", json!({"case": what, "rotation_columns": k, "avalanches": [want.len(), got.len()], "via": "banks"}));
+                return;
+            }
+        }
+        let mut want: Vec<Key> = base.iter().map(|a| (a.0, a.1, -a.2, a.3, a.4)).collect();
+        if let Ok(mut got) = via_banks(&mirror(&dsig)) {
+            sort_keys(&mut want);
+            sort_keys(&mut got);
+            let eq = |a: &Key, b: &Key| a.0 == b.0 && a.1 == b.1 && (a.2 - b.2).abs() <= 1e-9 && a.3 == b.3 && a.4 == b.4;
+            if want.len() != got.len() || want.iter().zip(&got).any(|(a, b)| !eq(a, b)) {
+                let first = want.iter().zip(&got).find(|(a, b)| !eq(a, b));
+                let tie = first.map(|(a, _)| {
+                    let tbin = (f64::from_bits(a.0) * 62.5e6).round() as usize;
+                    pad_tie_witness(&dsig, wire_column(a.1), tbin)
+                }).unwrap_or(false);
+                loc.violation(if tie && want.len() == got.len() { "c13:mirror:pad-amplitude-tie" } else { "c13:mirror-not-symmetric" }, json!({"case": what, "via": "banks", "avalanches": [want.len(), got.len()], "bit_equal_pad_amplitudes_in_that_column_and_time_bin": tie}));
+            }
+        }
+    });
+
     // F5: the full ring
     rep.run("full-ring", 4, 600, true, "all 256 wires carry data (zeros plus avalanches next to the seam and elsewhere): rotations + mirror", |idx, loc| {
         let hits: Vec<Hit> = match idx {
